@@ -69,6 +69,9 @@ type timestampOracle struct {
 	// time window has to be extended and save it, so that a save decided against an
 	// older lastSavedTime can never overwrite a larger window with a smaller one.
 	saveMu sync.Mutex
+	// saveUncertain is set when saving the time window returned an error: the write may
+	// have been applied in etcd all the same. Guarded by saveMu.
+	saveUncertain bool
 	suffix        int
 	dcLocation    string
 }
@@ -180,12 +183,39 @@ func (t *timestampOracle) saveTimestamp(leadership *election.Leadership, ts time
 		Then(clientv3.OpPut(key, string(data))).
 		Commit()
 	if err != nil {
+		t.saveUncertain = true
 		return errs.ErrEtcdKVPut.Wrap(err).GenWithStackByCause()
 	}
 	if !resp.Succeeded {
 		return errs.ErrEtcdTxnConflict.FastGenByArgs()
 	}
 	t.lastSavedTime.Store(ts)
+	t.saveUncertain = false
+	return nil
+}
+
+// refreshLastSavedTime must be called with saveMu held before lastSavedTime is used to decide
+// about a save. After a save that returned an error the time window may have been written
+// nevertheless: read it back, so that the next save is never computed against an older window
+// and can never replace the stored window with a smaller one.
+func (t *timestampOracle) refreshLastSavedTime() error {
+	if !t.saveUncertain {
+		return nil
+	}
+	value, err := etcdutil.GetValue(t.client, t.getTimestampPath())
+	if err != nil {
+		return err
+	}
+	if len(value) != 0 {
+		stored, err := typeutil.ParseTimestamp(value)
+		if err != nil {
+			return err
+		}
+		if last, ok := t.lastSavedTime.Load().(time.Time); !ok || typeutil.SubRealTimeByWallClock(stored, last) > 0 {
+			t.lastSavedTime.Store(stored)
+		}
+	}
+	t.saveUncertain = false
 	return nil
 }
 
@@ -281,6 +311,10 @@ func (t *timestampOracle) resetUserTimestamp(leadership *election.Leadership, ts
 	}
 	// save into etcd only if nextPhysical is close to lastSavedTime
 	t.saveMu.Lock()
+	if err := t.refreshLastSavedTime(); err != nil {
+		t.saveMu.Unlock()
+		return err
+	}
 	if typeutil.SubRealTimeByWallClock(t.lastSavedTime.Load().(time.Time), nextPhysical) <= UpdateTimestampGuard {
 		save := nextPhysical.Add(t.saveInterval)
 		if err := t.saveTimestamp(leadership, save); err != nil {
@@ -356,6 +390,10 @@ func (t *timestampOracle) UpdateTimestamp(leadership *election.Leadership) error
 	// It is not safe to increase the physical time to `next`.
 	// The time window needs to be updated and saved to etcd.
 	t.saveMu.Lock()
+	if err := t.refreshLastSavedTime(); err != nil {
+		t.saveMu.Unlock()
+		return err
+	}
 	if typeutil.SubRealTimeByWallClock(t.lastSavedTime.Load().(time.Time), next) <= UpdateTimestampGuard {
 		save := next.Add(t.saveInterval)
 		if err := t.saveTimestamp(leadership, save); err != nil {
